@@ -210,3 +210,15 @@ func LoadSet(dir string) (Set, error) {
 	}
 	return res, nil
 }
+
+// Renamed returns a copy of the artifact whose manifest carries another
+// contract name (and therefore deploys to another address).
+func (a *Artifact) Renamed(name string) *Artifact {
+	m := *a.Manifest
+	m.Name = name
+	res, err := NewArtifact(a.Name, a.NEF, &m)
+	if err != nil {
+		panic(err)
+	}
+	return res
+}
